@@ -31,11 +31,11 @@ pub fn run_oligo_in(recs: &[Vec<u8>], k: usize, norm: bool, threads: usize, deli
     let fq = container.starts_with("fq");
     for (i, r) in recs.iter().enumerate() {
         if fq {
-            bytes.extend_from_slice(format!("@r{}\n", i).as_bytes()); bytes.extend_from_slice(r); bytes.extend_from_slice(b"\n+\n");
+            bytes.extend_from_slice(format!("@{}\n", rec_id(i)).as_bytes()); bytes.extend_from_slice(r); bytes.extend_from_slice(b"\n+\n");
             for j in 0..r.len() { bytes.push(b"@I+5@"[(j + r.len()) % 5]); }
             bytes.push(b'\n');
         } else {
-            bytes.extend_from_slice(format!(">r{}\n", i).as_bytes());
+            bytes.extend_from_slice(format!(">{}\n", rec_id(i)).as_bytes());
             if container == "fa-wrap" { for ch in r.chunks(7) { bytes.extend_from_slice(ch); bytes.push(b'\n'); } } else { bytes.extend_from_slice(r); bytes.push(b'\n'); }
         }
     }
@@ -315,6 +315,18 @@ pub fn c14(o: &Opts) -> Outcome {
                 return Outcome { cases, witness: Some(vec![("k".into(), "2".into()), ("why".into(), format!("run '{}' into an existing output path: file has {} bytes, expected {} records x {} bytes", tag, len, n, row))]) };
             }
         }
+    }
+    // no record at all: the mapped file is exactly the header (or empty), not a byte more
+    for header in [false, true] {
+        cases += 1;
+        let none: Vec<Vec<u8>> = Vec::new();
+        if let Some(mut w) = c14_one(&none, 2, " ", header, 2) { w.push(("note".into(), "the input holds no record".into())); return Outcome { cases, witness: Some(w) }; }
+    }
+    // header lines without an identifier (`> free text`): still one record, one row slot each
+    {
+        let recs: Vec<Vec<u8>> = vec![b"ACGTACGT".to_vec(), b"GGCATTA".to_vec(), b"TTGACCAGT".to_vec()];
+        cases += 1;
+        if let Some(w) = with_ids("noid", || c14_one(&recs, 2, " ", false, 2)) { return Outcome { cases, witness: Some(w) }; }
     }
     // many records and many workers on the mapped writer: every row in its own slot, whatever the hand-out order
     {
